@@ -316,6 +316,10 @@ func main() {
 	flag.Parse()
 	out = bufio.NewWriterSize(os.Stdout, 1<<20)
 	defer out.Flush()
+	if *prop == "C13" {
+		runC13(*seed, *count, *scheds, *dfs, *dfsCap)
+		return
+	}
 	if *prop == "C20" {
 		runC20(*seed, *count)
 		return
